@@ -32,7 +32,11 @@ class Foo(HasTraits):
 
 
 KINDS = ["const", "anylist", "anydict", "list", "dict", "set", "inst", "factory", "dyn", "tuplelist", "tuple3",
-         "unionlist", "dictlist", "listlist"]
+         "unionlist", "dictlist", "listlist", "anysublist", "anyodict"]
+
+
+class Tags(list):
+    """A list subclass: still 'a list copy' kind of default."""
 
 
 def decl(kind):
@@ -42,6 +46,11 @@ def decl(kind):
         return Any([1, 2]), [1, 2]
     if kind == "anydict":
         return Any({"a": 1}), {"a": 1}
+    if kind == "anysublist":
+        return Any(Tags([1, 2])), [1, 2]
+    if kind == "anyodict":
+        import collections
+        return Any(collections.OrderedDict(a=1)), {"a": 1}
     if kind == "list":
         return List(Int, [1, 2]), [1, 2]
     if kind == "dict":
@@ -67,7 +76,7 @@ def decl(kind):
     raise AssertionError(kind)
 
 
-ASSIGN = {"const": 1, "anylist": [3], "anydict": {"b": 2}, "list": [3], "dict": {"b": 2}, "set": {3}, "inst": None,
+ASSIGN = {"anysublist": [3], "anyodict": {"b": 2}, "const": 1, "anylist": [3], "anydict": {"b": 2}, "list": [3], "dict": {"b": 2}, "set": {3}, "inst": None,
           "factory": [3], "dyn": [3], "tuplelist": ([3], 1), "tuple3": ("s", {"q": 1}, 2), "unionlist": [3],
           "dictlist": {"q": [3]}, "listlist": [[3]]}
 
@@ -118,7 +127,7 @@ OP = st.one_of(
 
 def strategy(tier):
     return st.fixed_dictionaries({
-        "kinds": st.lists(st.sampled_from(KINDS), min_size=1, max_size=5),
+        "kinds": st.lists(st.sampled_from(KINDS + ["const", "const"]), min_size=1, max_size=5),
         "sub_over": st.lists(st.integers(0, 4), max_size=2),
         "ops": st.lists(OP, min_size=1, max_size=20),
     })
@@ -207,8 +216,10 @@ def run(case, ctx):
         out = {}
         for n, t in cls.class_traits().items():
             dv = t.default_value()
-            out[n] = (len(t._notifiers(False) or []), dv[0], repr(plain(dv[1]))[:80] if not callable(dv[1]) else "callable",
-                      type(t.handler).__name__)
+            # (the static handlers live on the CTraits of __class_traits__, not on the declared base traits)
+            live = cls.__class_traits__.get(n)
+            out[n] = (len(t._notifiers(False) or []), len(live._notifiers(False) or []) if live is not None else -1,
+                      dv[0], repr(plain(dv[1]))[:80] if not callable(dv[1]) else "callable", type(t.handler).__name__)
         return out
     base_state = (class_state(Base), class_state(Sub))
     class_names = (sorted(Base.class_trait_names()), sorted(Sub.class_trait_names()))
@@ -261,8 +272,13 @@ def run(case, ctx):
                 o.add_trait(name, Int(3))
                 m["extra"].add(name)
             else:
-                name = names[op[3] % len(names)]
-                if kinds[op[3] % len(names)] != "const" or name in m["extra"]:
+                # (construction: the target is one of the constant-kind class traits, if there is one)
+                consts = [i for i, kk in enumerate(kinds) if kk == "const"]
+                if not consts:
+                    continue
+                ci = consts[op[3] % len(consts)]
+                name = names[ci]
+                if name in m["extra"]:
                     continue
                 had = name in m["vals"] or name in m["read"]
                 o.add_trait(name, Int(99))
@@ -347,8 +363,14 @@ def run(case, ctx):
                 val = ASSIGN[kind]
                 if kind == "inst":
                     val = Foo(z=5)
+                old_plain = plain(getattr(o, nm))
+                del log[:]
                 setattr(o, nm, copy.deepcopy(val) if kind != "inst" else val)
                 m["vals"][nm] = plain(getattr(o, nm))
+                # the class's static handler still serves THIS instance, whatever was done to other instances
+                if kind != "inst" and old_plain != m["vals"][nm] and (o.__dict__["_serial"], nm) not in log:
+                    ctx.fail("isolation/static-handler-lost", "assigning %s (%s) on instance #%d did not reach the class's static "
+                             "_%s_changed handler (log %r): %s" % (nm, kind, j, nm, log, what))
             elif k == "otc":
                 f = mk_otc(o.__dict__["_serial"])
                 keep.append(f)
